@@ -72,7 +72,22 @@ func shapeSpec(r *RNG, h int, rows []int, text func(*RNG) ItemSpec, hows []int) 
 		for i := range cs {
 			cs[i] = text(r)
 		}
-		ts.Rows = append(ts.Rows, RowSpec{How: pick(r, hows), Cells: cs})
+		rs := RowSpec{How: pick(r, hows), Cells: cs}
+		if r.Pct(8) {
+			// cells appended to the row long after it joined the table
+			rs.Late = []ItemSpec{text(r)}
+			if r.Bool() {
+				rs.Late = append(rs.Late, text(r))
+			}
+			rs.LateAfter = r.Intn(3)
+		}
+		ts.Rows = append(ts.Rows, rs)
+	}
+	if len(ts.Rows) > 0 && r.Pct(15) {
+		ts.Stages = []int{r.Intn(len(ts.Rows))}
+		if r.Bool() {
+			ts.Stages = append(ts.Stages, r.Intn(len(ts.Rows)))
+		}
 	}
 	return ts
 }
@@ -179,6 +194,21 @@ func shrinkTable(ts TableSpec) []TableSpec {
 			c.Rows[i].How = 0
 			out = append(out, c)
 		}
+		if len(ts.Rows[i].Late) > 0 {
+			c := clone()
+			c.Rows[i].Late = c.Rows[i].Late[:len(c.Rows[i].Late)-1]
+			out = append(out, c)
+			if ts.Rows[i].LateAfter > 0 {
+				c := clone()
+				c.Rows[i].LateAfter--
+				out = append(out, c)
+			}
+		}
+	}
+	for i := range ts.Stages {
+		c := clone()
+		c.Stages = append(append([]int{}, ts.Stages[:i]...), ts.Stages[i+1:]...)
+		out = append(out, c)
 	}
 	if ts.Header != nil {
 		for j, h := range *ts.Header {
@@ -272,9 +302,8 @@ func init() {
 				panic(err)
 			}
 			t := tabular.New()
-			ts.Build(t)
-			v := extractView(t)
-			o := capture(func() (string, error) { return csv.Wrap(t).Render() })
+			o := ts.BuildRender(t, func(t tabular.Table) func() (string, error) { w := csv.Wrap(t); return w.Render })
+			v := ts.SpecView() // what was put in; extractView(t) would be what the table now holds
 			vc := v.Coq(true)
 			return CaseOut{
 				Coq:        cqPair(vc, o.Coq()),
